@@ -1,6 +1,7 @@
 import Grexv.Lemmas.TrieCarried
 import Grexv.Props.C13
 import Grexv.Lemmas.RepExpand
+import Grexv.Lemmas.RepFuel
 import Grexv.Lemmas.Pipeline
 import Grexv.Lemmas.PrintCountG
 import Grexv.Lemmas.RepPipeline
@@ -63,6 +64,39 @@ nested repetition is a converted form of the unit it sits in -/
 theorem conversion_is_exact (cfg : Config) (ss : List Str) :
     expandAll (convertRepetitions cfg (ss.map Grapheme.ofStr)) = ss ∧
       ConsistentL (convertRepetitions cfg (ss.map Grapheme.ofStr)) := convertRepetitions_exact cfg ss
+
+/-- **the model's recursion bound is never reached (S4)** `convert_repetitions` recurses into the unit of every counted
+grapheme it creates; the model carries fuel for that recursion and would answer "nothing found" when it runs out. For a
+cluster of plain graphemes — what S2/S3 hand to S4 (`preClusters_eq`) and what every recursive call receives — any two
+amounts of fuel above the cluster's length give the same result: a unit has at most half the length of the cluster it
+was found in, and a cluster of one grapheme has no repeated substring. So the function the model computes is the one
+the unbounded recursion of the code defines, for clusters of every length and every pair of thresholds -/
+theorem conversion_fuel_irrelevant (cfg : Config) (f1 f2 : Nat) (ss : List Str) (h1 : ss.length < f1) (h2 : ss.length < f2) :
+    convertRepsAux cfg f1 (ss.map Grapheme.ofStr) = convertRepsAux cfg f2 (ss.map Grapheme.ofStr) :=
+  convertRepsAux_fuel cfg f1 f2 ss h1 h2
+
+/-- … in particular `GraphemeCluster::convert_repetitions` as modelled (fuel: length + 1) equals the same recursion
+with any larger bound -/
+theorem conversion_fuel_sufficient (cfg : Config) (ss : List Str) (k : Nat) :
+    (convertRepsAux cfg ((ss.map Grapheme.ofStr).length + 1 + k) (ss.map Grapheme.ofStr)).getD (ss.map Grapheme.ofStr) =
+      convertRepetitions cfg (ss.map Grapheme.ofStr) := convertRepetitions_fuel cfg ss k
+
+/-- a unit found by S4 has at most half the length of the cluster: the reason the recursion ends -/
+theorem unit_at_most_half (cfg : Config) (vals : List Str) :
+    ∀ rp ∈ createRanges cfg (collectRepeated vals), rp.2.length ≤ vals.length / 2 :=
+  createRanges_unit cfg _ _ (collectRepeated_keysLe vals)
+
+/-- the sort key of `create_ranges_of_repetitions` reads the first index of an entry; every entry of the map has one
+(the default the model's `headD` would supply is never used) -/
+theorem repeated_substrings_have_an_index (vals : List Str) : ∀ kv ∈ collectRepeated vals, kv.2 ≠ [] :=
+  collectRepeated_idxNe vals
+
+/-- non-vacuity: a nested period (`abab abab`) — the recursion goes two levels deep with fuel 9 and the result is the
+one with fuel 100 -/
+example :
+    let ss : List Str := [[97], [98], [97], [98], [97], [98], [97], [98]]
+    (convertRepsAux {} 9 (ss.map Grapheme.ofStr)).isSome = true ∧
+      convertRepsAux {} 9 (ss.map Grapheme.ofStr) = convertRepsAux {} 100 (ss.map Grapheme.ofStr) := by decide
 
 theorem plain_cluster_form (cl : Cluster) (h : ∀ g ∈ cl, ∃ s, s ≠ [] ∧ g = Grapheme.ofStr s) :
     cl = (cl.map Grapheme.value).map Grapheme.ofStr := by
